@@ -553,6 +553,7 @@ impl Compiler {
             Node::Break(expression) => match self.frame().current_loop() {
                 Some(loop_info) => {
                     let loop_result_register = loop_info.result_register;
+                    let open_try_blocks = loop_info.open_try_blocks;
 
                     match (loop_result_register, expression) {
                         (Some(loop_result_register), Some(expression)) => {
@@ -568,6 +569,11 @@ impl Compiler {
                         (None, None) => {}
                     }
 
+                    // Clear the catch points of the try blocks that are left by the jump
+                    for _ in 0..open_try_blocks {
+                        self.push_op(TryEnd, &[0]);
+                    }
+
                     self.push_op(Jump, &[]);
                     self.push_loop_jump_placeholder()?;
 
@@ -579,9 +585,14 @@ impl Compiler {
                 Some(loop_info) => {
                     let loop_result_register = loop_info.result_register;
                     let loop_start_ip = loop_info.start_ip;
+                    let open_try_blocks = loop_info.open_try_blocks;
 
                     if let Some(result_register) = loop_result_register {
                         self.push_op(SetNull, &[result_register]);
+                    }
+                    // Clear the catch points of the try blocks that are left by the jump
+                    for _ in 0..open_try_blocks {
+                        self.push_op(TryEnd, &[0]);
                     }
                     self.push_jump_back_op(JumpBack, &[], loop_start_ip)?;
 
@@ -2135,7 +2146,11 @@ impl Compiler {
             _ => ResultRegister::None,
         };
 
-        self.compile_node(*try_block, ctx.with_register(try_result_register))?;
+        // Break and continue expressions in the try block need to clear the catch point
+        self.frame_mut().adjust_open_try_blocks_in_loop(1);
+        let try_block_result = self.compile_node(*try_block, ctx.with_register(try_result_register));
+        self.frame_mut().adjust_open_try_blocks_in_loop(-1);
+        try_block_result?;
 
         // Clear the catch point at the end of the try block
         // - if the end of the try block has been reached then the catch block is no longer needed.
